@@ -150,7 +150,12 @@ type Opt struct {
 
 func (o Opt) coq() string {
 	switch o.Name {
-	case "WithRefreshTokenGrant", "WithCIBALifetime", "WithPAR", "WithPARRequired",
+	case "WithRefreshTokenGrant":
+		if o.S != "" { // which ShouldIssueRefreshTokenFunc the world installs (world.go issuePolicy)
+			return fmt.Sprintf("WithRefreshTokenGrantPol %s %s", o.S, cZ(o.Z))
+		}
+		return fmt.Sprintf("%s %s", o.Name, cZ(o.Z))
+	case "WithCIBALifetime", "WithPAR", "WithPARRequired",
 		"WithAuthenticationSessionTimeout", "WithTokenLifetime":
 		return fmt.Sprintf("%s %s", o.Name, cZ(o.Z))
 	case "WithScopes":
